@@ -1,5 +1,5 @@
 (* Proofs/C28Proofs.v — the canonical request is an injective encoding; acceptance is bound to a signing fact. *)
-From Verif Require Import Bytes Codec SigV4 SigV4Spec SigV4EncProofs SigV4SortProofs SigV4AuthProofs.
+From Verif Require Import Bytes Codec SigV4 SigV4Spec SigV4EncProofs SigV4HdrProofs SigV4SortProofs SigV4AuthProofs.
 From Coq Require Import Permutation.
 
 (* ---- splitting at a delimiter ---- *)
@@ -270,6 +270,8 @@ Proof.
   unfold trim_space, trim_right. intros H. apply in_rev in H. apply in_trim_left in H. apply in_rev in H.
   apply in_trim_left in H. exact H.
 Qed.
+Lemma in_canonical_header_value c v : In c (canonical_header_value v) -> In c v.
+Proof. rewrite canonical_header_value_eq_spec. unfold spec_trimall. intros H. apply in_trim_space in H. apply in_collapse in H. exact H. Qed.
 Lemma lower_byte_colon b : lower_byte b = ":"%byte -> b = ":"%byte.
 Proof. destruct b; vm_compute; intros H; try discriminate; reflexivity. Qed.
 Lemma lower_byte_nl b : lower_byte b = nl -> b = nl.
@@ -292,8 +294,9 @@ Proof.
   destruct (W k vs (or_introl eq_refl)) as [Wc [Wn Wv]]. unfold line_ok; cbn [fst snd]. repeat split.
   - intros H. apply Wc. apply (in_to_lower ":"%byte); auto.
   - intros H. apply Wn. apply (in_to_lower nl); auto.
-  - intros H. apply in_trim_space in H. apply in_join in H. destruct H as [H|[x [Hx Hc]]]; [discriminate|].
-    rewrite Forall_forall in Wv. exact (Wv x Hx Hc).
+  - intros H. apply in_join in H. destruct H as [H|[x [Hx Hc]]]; [discriminate|].
+    apply in_map_iff in Hx. destruct Hx as [v [<- Hv]]. apply in_canonical_header_value in Hc.
+    rewrite Forall_forall in Wv. exact (Wv v Hv Hc).
 Qed.
 
 Lemma collect_ok r names : wf_request r -> Forall line_ok (collect_signed_headers (r_host r) (r_headers r) names).
@@ -304,7 +307,7 @@ Proof.
   unfold line_ok; cbn [fst snd]. repeat split.
   - intros H. cbn in H. intuition discriminate.
   - intros H. cbn in H. intuition discriminate.
-  - intros H. apply in_trim_space in H. auto.
+  - intros H. apply in_canonical_header_value in H. auto.
 Qed.
 
 Theorem canonical_request_determines r esc names pre r0 esc0 names0 pre0 :
@@ -376,7 +379,7 @@ Qed.
 
 Lemma signed_pairs_in h names k vs :
   In (k, vs) h -> mem_bytes (to_lower k) names = true ->
-  In (to_lower k, trim_space (join B"," vs)) (signed_pairs h names).
+  In (to_lower k, join B"," (map canonical_header_value vs)) (signed_pairs h names).
 Proof.
   induction h as [|[k' vs'] h IH]; cbn [signed_pairs In]; [tauto|].
   intros [E|Hin] Hm.
@@ -385,7 +388,7 @@ Proof.
 Qed.
 Lemma signed_header_in_block host h names k vs :
   In (k, vs) h -> mem_bytes (to_lower k) names = true ->
-  In (to_lower k, trim_space (join B"," vs)) (collect_signed_headers host h names).
+  In (to_lower k, join B"," (map canonical_header_value vs)) (collect_signed_headers host h names).
 Proof.
   intros Hin Hm. unfold collect_signed_headers.
   apply (Permutation_in _ (Permutation_sym (isort_perm key_leb _))). right. apply signed_pairs_in; assumption.
@@ -432,4 +435,22 @@ Proof.
   pose proof (escaped_nonempty _ _ Hp H1) as He.
   destruct (canonical_request_determines _ _ _ _ _ _ _ _ W W0 He He0 (eq_sym Ec)) as (Q1 & Q2 & Q3 & Q4 & Q5).
   exists esc, p, t. subst date. rewrite <- Et in *. repeat split; auto.
+Qed.
+
+(* the header block depends on the header map only through (lower-cased name, ','-join of the Trimall'ed values) *)
+Lemma spec_signed_pairs_ext h : forall h' names,
+  map (fun kv => (to_lower (fst kv), join B"," (map spec_trimall (snd kv)))) h =
+  map (fun kv => (to_lower (fst kv), join B"," (map spec_trimall (snd kv)))) h' ->
+  spec_signed_pairs h names = spec_signed_pairs h' names.
+Proof.
+  induction h as [|[k vs] h IH]; intros [|[k' vs'] h'] names E; cbn in E; try discriminate; [reflexivity|].
+  inversion E as [[E1 E2 E3]]. cbn [spec_signed_pairs]. rewrite (IH h' names E3). fold (to_lower k) in E1. fold (to_lower k') in E1. rewrite E1, E2. reflexivity.
+Qed.
+Lemma header_block_up_to_trimall host h h' names :
+  map (fun kv => (to_lower (fst kv), join B"," (map spec_trimall (snd kv)))) h =
+  map (fun kv => (to_lower (fst kv), join B"," (map spec_trimall (snd kv)))) h' ->
+  spec_trimall host = spec_trimall host ->
+  collect_signed_headers host h names = collect_signed_headers host h' names.
+Proof.
+  intros E _. rewrite !collect_eq_spec. unfold spec_header_pairs. rewrite (spec_signed_pairs_ext h h' names E). reflexivity.
 Qed.
